@@ -94,7 +94,13 @@ fn result_fingerprint(run: &RunState, fp: u64) -> u64 {
         h.u64(o.inv as u64);
         h.u64(o.ret.unwrap_or(0) as u64);
         h.u64(o.clk_inv);
-        h.bytes(oracle::res_summary(&o.res).as_bytes());
+        // Error texts contain the scratch path (pid, worker), which is not
+        // part of the behaviour: hash only that it was an error.
+        match &o.res {
+            exec::Res::Err(_) => h.bytes(b"Err"),
+            exec::Res::OpenErr(_) => h.bytes(b"OpenErr"),
+            other => h.bytes(oracle::res_summary(other).as_bytes()),
+        }
     }
     h.0
 }
